@@ -52,7 +52,7 @@ def bounds(tier, alpha):
 
 def hstr(h):
     return ' '.join('+' + op[1] if op[0] == 'add' else f'+{op[1]}@{op[2]}' if op[0] == 'addf' else f'-#{op[1]}' if op[0] == 'rm'
-                    else f'#{op[1]}:={op[2]}' if op[0] == 'rep' else f'-k{op[1]}' if op[0] == 'rmk' else f'.{op[1]}' if op[0] == 'set' else f'.{op[1]}=None' if op[0] == 'unset'
+                    else f'#{op[1]}:={op[2]}' if op[0] == 'rep' else f'-k{op[1]}' if op[0] == 'rmk' else f'#{op[1]}:=fn' if op[0] == 'repc' else f'.{op[1]}' if op[0] == 'set' else f'.{op[1]}=None' if op[0] == 'unset'
                     else f'str({op[1]})' for op in h)
 
 
@@ -165,10 +165,12 @@ def eval_type(args):
                     fail('C19', h + (('str', ic),), f'undocumented exception {v[1]} from to_string')
             # C16 purity / determinism: to_string has no observable effect
             counts['C16'] += 1
-            a, b = observe(h + (('str', False),)), observe(h)
-            for key in ('ordered', 'insertion', 'verdict', 'accepts'):
-                if a[key] != b[key]:
-                    fail('C16', h, f'to_string changed {key}: {b[key]} -> {a[key]}')
+            b = observe(h)
+            for ic in (False, True):
+                a = observe(h + (('str', ic),))
+                bad = [key for key in ('ordered', 'insertion', 'verdict', 'accepts') if a[key] != b[key]]
+                if bad and (a['outs'][-1] == 'ok' or not ic):
+                    fail('C16', h, f'to_string(intelligent_choice={ic}) changed {bad[0]}: {b[bad[0]]} -> {a[bad[0]]}')
                     break
         # ---- C07 / C12 on the last add
         if last[0] in ('add', 'addf'):     # failed attempts earlier in the history are allowed: they must have been no-ops
